@@ -78,6 +78,16 @@ CHECKS = {
              "final numeric token leaving a valid number' is a recorded known finding, excluded by construction and counted.",
         technique="exhaustive fault (truncation) enumeration + random fault injection + coverage-guided structured fuzzing (atheris) with a differential/self-consistency oracle",
     ),
+    "C11": dict(
+        category="exploration",
+        text="Six generated-input legs: rotation_matrix_from_vectors (general, parallel, antiparallel neighbourhood eps in {0} U 1e-12..1e-3, three tol values, perturbed "
+             "np.random state) and rotation_matrix_from_axis against their algebraic definition; ten rigid-motion operations on molecules / ensembles / substructures "
+             "(distance matrix, signed volumes, documented effect); rotate_dihedral on every suitable bridge bond of 8 bundled files (exhaustive) and of generated graphs; "
+             "align_to_ref_coords with two harness Kabsch variants (plain and internally centring, as the molli align wrappers), two index-set orders, two initial poses.",
+        design_ref="DESIGN.md section 5, C11",
+        note="Numerical tolerances 1e-6 (constructed matrices) / 1e-9 relative (rigid motions); collinear dihedral triples excluded; reference geometry centred as every caller does.",
+        technique="property-based testing against algebraic definitions + metamorphic pose-independence relation",
+    ),
     "C02": dict(
         category="exploration",
         text="Bounded-exhaustive (all op sequences up to length 4/5 over a 14-letter alphabet on two raw UKVFile handles) plus random "
